@@ -84,6 +84,25 @@ package swap
 //@ ensures recv == services.bitcoinValidator ==> result == 1008
 //@ assigns nothing
 
+// own estimate of the opening fee / channel balance, as reported by wallet and node
+//@ interface Wallet.GetFlatOpeningTXFee
+//@ ensures result1 == nil ==> ghost.feeEstimate == result0
+//@ ensures result1 == nil ==> result0 <= 1000000000000
+//@ assigns ghost.feeEstimate
+
+//@ interface LightningClient.SpendableMsat
+//@ ensures result1 == nil ==> ghost.spendable == result0
+//@ assigns ghost.spendable
+
+// C12: the fee invoice is paid only if it is at most three times the own
+// estimate and the channel can carry amount plus fee; C24: over the swap channel
+//@ interface LightningClient.PayInvoiceViaChannel
+//@ requires @C12 invoice: payreq == swap.SwapOutAgreement.Payreq
+//@ requires @C12 fee-bound: mi(uf("payreqMsat", uint64(0), payreq)) / 1000 <= 3 * mi(ghost.feeEstimate)
+//@ requires @C12 capacity: mi(swap.SwapOutRequest.Amount) * 1000 + mi(uf("payreqMsat", uint64(0), payreq)) <= mi(ghost.spendable)
+//@ requires @C24 channel: channel == swap.GetScid()
+//@ assigns nothing
+
 //@ interface LightningClient.RebalancePayment
 //@ requires @C04 liquid-window: swap.GetChain() == l_btc_chain ==> (swap.GetProtocolVersion() == 7 && swap.StartingBlockHeightSet && ghost.tipKnown && mi(ghost.tip) >= mi(swap.StartingBlockHeight) && mi(ghost.tip) < mi(swap.StartingBlockHeight) + 60)
 //@ requires @C04 liquid-limit: swap.GetChain() == l_btc_chain ==> maxTotalCLTVDelta == 32
@@ -243,10 +262,10 @@ package swap
 //@ table getSwapOutReceiverStates progress @C16 State_WaitCsv Event_OnCsvPassed
 
 // C15: states whose action must not run twice after a restart fail over instead.
-//@ table getSwapOutSenderStates failonrecover @C15 State_SwapOutSender_CreateSwap true
+//@ table getSwapOutSenderStates failonrecover @C15,C13 State_SwapOutSender_CreateSwap true
 //@ table getSwapOutSenderStates failonrecover @C15 State_SwapOutSender_PayFeeInvoice true
 //@ table getSwapInSenderStates failonrecover @C15 State_SwapInSender_CreateSwap true
-//@ table getSwapInReceiverStates failonrecover @C15 State_SwapInReceiver_CreateSwap true
+//@ table getSwapInReceiverStates failonrecover @C15,C13 State_SwapInReceiver_CreateSwap true
 //@ table getSwapOutReceiverStates failonrecover @C15 State_SwapOutReceiver_CreateSwap true
 
 // ---------------------------------------------------------------------------
@@ -286,6 +305,7 @@ package swap
 // premium accepted only within the limit (CheckPremiumAmount), relied on when paying
 //@ table getSwapOutSenderStates set PremiumChecked State_SwapOutSender_AwaitTxBroadcastedMessage State_SwapOutSender_AwaitTxConfirmation State_SwapOutSender_ValidateTxAndPayClaimInvoice
 //@ entryinv getSwapOutSenderStates PremiumChecked @C12 premium-limit: swap.SwapOutAgreement.Premium <= swap.SwapOutRequest.PremiumLimit
+//@ entryinv getSwapOutSenderStates PremiumChecked @C12 premium-sane: swap.SwapOutRequest.Amount <= 9223372036854775 && mi(swap.SwapOutRequest.Amount) + mi(swap.SwapOutAgreement.Premium) >= 0 && mi(swap.SwapOutRequest.Amount) + mi(swap.SwapOutAgreement.Premium) <= 9223372036854775
 // C13: anchor durable before the pubkey leaves, frozen afterwards
 //@ table getSwapOutSenderStates set Anchored State_SwapOutSender_SendRequest State_SwapOutSender_AwaitAgreement State_SwapOutSender_PayFeeInvoice State_SwapOutSender_AwaitTxBroadcastedMessage State_SwapOutSender_AwaitTxConfirmation State_SwapOutSender_ValidateTxAndPayClaimInvoice State_SwapOutSender_ClaimSwap State_SwapOutSender_SendPrivkey State_SwapOutSender_SendCoopClose
 //@ entryinv getSwapOutSenderStates Anchored @C13 anchor-durable: (swap.GetChain() == l_btc_chain && swap.GetProtocolVersion() == 7) ==> (swap.StartingBlockHeightSet && ghost.dSet && ghost.dHeight == swap.StartingBlockHeight)
@@ -324,3 +344,7 @@ package swap
 //@ requires @C13 anchor-durable: ((messageType == int(messages.MESSAGETYPE_SWAPOUTREQUEST) || messageType == int(messages.MESSAGETYPE_SWAPINAGREEMENT)) && swap.GetChain() == l_btc_chain && swap.GetProtocolVersion() == 7) ==> (swap.StartingBlockHeightSet && ghost.dSet && ghost.dHeight == swap.StartingBlockHeight)
 //@ requires @C09 to-counterparty: peerId == swap.PeerNodeId
 //@ assigns nothing
+
+// the request amount is validated to convert to millisatoshi without overflow
+//@ entryinv getSwapOutSenderStates Started @C11,C12 amount-range: swap.SwapOutRequest.Amount <= 9223372036854775
+//@ entryinv getSwapInReceiverStates Started @C11,C12 amount-range: swap.SwapInRequest.Amount <= 9223372036854775
